@@ -42,7 +42,9 @@ const std::map<void *, Block> &live();
 uint64_t serial();                   // serial number of the last block handed out
 // blocks allocated after `since_serial` that are still live
 std::vector<Block> live_since(uint64_t since_serial);
-bool is_live(const void *p);
+bool is_live(const void *p);           // allocated in this run, or kept from an earlier one
+size_t kept_count();                   // blocks that outlived earlier runs (library-side caches)
+bool is_kept(const void *p);
 size_t size_of(const void *p);
 void release(void *p);               // the harness frees a block the library returned
 
